@@ -554,3 +554,59 @@ func distinctArgsAtAllCallSites(P *Program, an *Analysis, fi *FuncInfo) (bool, i
 	}
 	return sites > 0, sites
 }
+
+// selfEstablishesDistinct: every path of fi that stores anything has, before its first store, a test that found its
+// (same-typed) pointer parameters different; the paths on which they coincide change nothing. Summarising the
+// function under the distinct-parameter assumption is then exact for every path that has an effect.
+func selfEstablishesDistinct(an *Analysis, fi *FuncInfo) bool {
+	if fi == nil {
+		return false
+	}
+	fn := fi.SSA
+	type pair struct{ i, j int }
+	var pairs []pair
+	for i := range fn.Params {
+		for j := i + 1; j < len(fn.Params); j++ {
+			_, pi := fn.Params[i].Type().Underlying().(*types.Pointer)
+			_, pj := fn.Params[j].Type().Underlying().(*types.Pointer)
+			if pi && pj && types.Identical(fn.Params[i].Type(), fn.Params[j].Type()) {
+				pairs = append(pairs, pair{i, j})
+			}
+		}
+	}
+	if len(pairs) == 0 {
+		return false
+	}
+	fp := an.PathsOf(fn)
+	if fp.Unproven != "" {
+		return false
+	}
+	for _, p := range fp.Paths {
+		first := -1
+		for k := range p.Events {
+			if kd := p.Events[k].Kind; kd == "store" || kd == "mapupdate" || kd == "call" || kd == "go" || kd == "defer" || kd == "send" {
+				first = k
+				break
+			}
+		}
+		if first < 0 {
+			continue
+		}
+		for _, pr := range pairs {
+			ok := false
+			for _, cd := range p.Conds {
+				if cd.NEv > first {
+					break
+				}
+				r := cd.Rel()
+				if r.B != nil && r.Op == "!=" && ((isParam(r.A, pr.i) && isParam(r.B, pr.j)) || (isParam(r.A, pr.j) && isParam(r.B, pr.i))) {
+					ok = true
+				}
+			}
+			if !ok {
+				return false
+			}
+		}
+	}
+	return true
+}
